@@ -61,6 +61,26 @@ pub fn record(n: usize, out: &mut impl std::io::Write) {
     }
 }
 
+/// encodings whose LENGTH FIELDS hold extreme numbers (beyond what the specification's 32-bit integers can
+/// express): around 2^31, 2^32, 2^63, 2^64 and far beyond, signed, zero-padded - in the first or the second field
+pub fn extreme_length_inputs() -> Vec<Vec<u8>> {
+    let nums = [
+        "0", "00", "1", "01", "4", "5", "2147483647", "2147483648", "4294967295", "4294967296", "9223372036854775807",
+        "9223372036854775808", "18446744073709551614", "18446744073709551615", "18446744073709551616", "18446744073709551617",
+        "99999999999999999999999999999999", "-1", "+4", "4.0", "4e0", "0x4", "",
+    ];
+    let mut out = vec![];
+    for n in nums {
+        out.push(format!("DSSEv1 {n} link 5 hello").into_bytes());
+        out.push(format!("DSSEv1 4 link {n} hello").into_bytes());
+        out.push(format!("DSSEv1 {n} link {n} hello").into_bytes());
+        out.push(format!("DSSEv1 {n} ").into_bytes());
+        out.push(format!("DSSEv1 {n}").into_bytes());
+        out.push(format!("DSSEv1 0  {n} ").into_bytes());
+    }
+    out
+}
+
 /// binary payloads and Unicode types: exact round trip, injectivity on the sample (harness-side oracle
 /// instantiating Pae.tla's RoundTrip / Injective beyond what a JSON trace can carry)
 pub fn binary(n: usize) -> Value {
@@ -85,5 +105,16 @@ pub fn binary(n: usize) -> Value {
         }
         seen.insert(packed, (t, p));
     }
-    json!({"n": n, "bad": bad})
+    // decoding is total also where a length field holds an extreme number
+    let mut extreme = 0;
+    for input in extreme_length_inputs() {
+        extreme += 1;
+        for which in 0..2 {
+            let r = if which == 0 { guarded(|| in_toto::verif::pae_unpack(&input).is_ok()) } else { guarded(|| in_toto::verif::pae_try_unpack(&input).is_ok()) };
+            if r.is_err() && bad.len() < 8 {
+                bad.push(json!({"decode_panics": String::from_utf8_lossy(&input), "entry": if which == 0 { "unpack" } else { "try_unpack" }}));
+            }
+        }
+    }
+    json!({"n": n, "extreme_length_inputs": extreme, "bad": bad})
 }
